@@ -67,6 +67,14 @@ CLAIMS = {
          "TLC enumerates all interleavings (modulo slot symmetry and commuting calls) of a 13-call lifecycle alphabet over 3 slots to depth 4..6 from the Lifecycle contract; every behaviour is replayed on 19 sketch / operator types instantiated with an id-carrying tracking allocator and an instrumented item type, and the resulting event trace (calls + Alloc/Dealloc + item ctor/dtor/use) is validated by TLC against the contract: equal histories give equal digests, copies are independent, moves transfer the state and leave the source destructible / assignable, deallocation matches allocation (size, allocator instance), no use after destruction, nothing live at the end",
          "trusted: TLC, the tracking allocator and probe item as event sources; determinism through a constant coin source and re-seeding before every call; thorough tier repeats the replay under ASan",
          "TLC-generated behaviours (spec -> impl) replayed on the real classes; trace validation of the replay against the TLA+ lifecycle contract", "DESIGN.md 6 C19"),
+ "C12": ("model_checking",
+         "TLC exhausts the frequent-items design model (open-addressing map with resize, purge at the code's median, merge replay, offset bookkeeping) refining the contract (for every item of the universe lb <= true weight <= ub and lb <= est <= ub as RETURNED by the queries, ub - lb = maximum error, exact total weight, NO_FALSE_NEGATIVES / NO_FALSE_POSITIVES set definitions, descending order, published epsilon); recorded weighted streams (Zipf / uniform / adversarial, int64 and string items, merge trees lvalue and rvalue, serialization) are validated by TLC against the contract; a negative config reproduces the repaired empty-map defect",
+         "trusted: TLC; the universe per segment is small (<= ~60 items incl. never-seen ones) so every item is queried at every observation",
+         TECH, "DESIGN.md 6 C12"),
+ "C14": ("model_checking",
+         "TLC exhausts the count-min design model (row hash as an unknown function quantified over all functions up to bucket renaming, estimate = row minimum, upper bound formula, cell-wise merge) refining the contract (truth <= estimate <= total, lb <= est <= ub, total = sum of |w|, merge equals a witness sketch fed the concatenated stream, self / incompatible merges refused); recorded histories over rows x buckets x seeds x item types with a witness sketch are validated by TLC; exceedance rate by a seeded verdict; tier-B (learned row hash) reported as drift only",
+         "trusted: TLC; the row seeds come from std::default_random_engine, which the documentation does not fix, so the row hash is learned from the trace rather than recomputed",
+         TECH, "DESIGN.md 6 C14"),
 }
 
 PENDING_REASON = "check not yet built in this round (work in progress; DESIGN.md section 10 build order)"
